@@ -14,7 +14,8 @@ for d in ids:
         print(d, "does not apply"); continue
     subprocess.run(["git", "-C", "/repo", "apply", patch], check=True)
     try:
-        r = subprocess.run(["./check", prop, "--tier", "quick"], cwd="/verif", capture_output=True, text=True, timeout=3000)
+        r = subprocess.run(["./check", prop, "--tier", "quick"], cwd="/verif", capture_output=True, text=True, timeout=3000,
+                           env=dict(os.environ, VERIF_EVIDENCE_DIR="/verif/.run/scratch-evidence"))
         out = r.stdout + r.stderr
     finally:
         subprocess.run(["git", "-C", "/repo", "checkout", "--", "."], check=True)
